@@ -366,6 +366,9 @@ func facadeCheck(c *fw.Ctx, pc *pdfCase, q request) (verdict, bool) {
 			red, err := view(pc.reduced(), q.Sel, q.SelHow, "", q.API, q.TM)
 			if err == nil && equalStrings(atomsOf(red), F) {
 				v.Finding = findingReflow
+				if os.Getenv("C11_REFLOW_LOG") != "" {
+					fmt.Fprintf(os.Stderr, "REFLOW %s char=%v %s\n", pc.id, d.CharLevel, v.What)
+				}
 				c.Count("reflow_at "+q.API+"/"+q.TM+fmt.Sprintf("/char=%v", d.CharLevel)+"/"+strings.SplitN(v.Class, "/", 4)[2], 1)
 			}
 		}
